@@ -484,7 +484,7 @@ theorem parseSplit_noEmpty (sp : SplitResult) (r : Parsed) (hnd : hasInfix sp.pa
   · exact routeHandle_noEmpty _ r hseg
 
 theorem squeezePath_noDbl (sp : SplitResult) : hasInfix (squeezePath sp).path dblSlash = false :=
-  noDbl_squeeze sp.path
+  noDbl_squeeze (stripSegments sp.path)
 
 /-- **no record returned by `parse_facebook_url` carries an empty string** -/
 theorem parse_facebook_url_noEmpty (url : Str) (rel : Bool) (r : Parsed)
